@@ -34,6 +34,7 @@ REPORTS_GATE = ["r:wmonth:orig", "r:weast:orig", "x:wmonth", "y:wmonth", "r:wday
 REPORTS_SPAN = ["r:wyear:orig", "r:wpart:orig", "r:wmonth:orig", "r:wweek:orig", "r:wday:orig", "r:wweek:absent"]
 REPORTS_OBS = ["r:wyear:orig", "r:wyear:x3", "r:wyear:shuffled", "r:wyear:partnan", "r:wyear:partzero", "r:wyear:allnan", "r:wyear:absent",
                "r:wpart:orig", "r:wpart:absent", "r:wpart:partnan", "r:wpart:partzero",
+               "r:wdup:orig", "r:wdup:allnan", "r:wdup:absent", "r:wdup:partnan",        # duplicated timestamps: which row is kept must not depend on usage
                "r:wgap:orig", "r:wgap:allnan", "r:wgap:absent", "r:wgap:x3"]        # a weather feed with gaps: the fill must not look at usage
 
 SCENARIOS = {
@@ -42,6 +43,7 @@ SCENARIOS = {
     "gate2": dict(template="T_gate", base=["b:gaps", "b:east", "b:poor"], reports=REPORTS_GATE, slots=["s1", "s2"], ign=[True, False]),
     "refit": dict(template="T_refit", base=["b:good", "b:short", "b:poor"], reports=["r:wmonth:orig", "r:weast:orig"], slots=["s1"], ign=[True, False]),
     "store": dict(template="T_store", base=["b:good", "b:poor", "b:short"], reports=["r:wyear:orig", "r:wweek:orig", "r:wpart:absent"], slots=["s1", "s2"], ign=[True]),
+    "store2": dict(template="T_store2", base=["b:good", "b:other"], reports=["r:wweek:orig"], slots=["s1", "s2"], ign=[True]),
     "pure": dict(template="T_pure", base=["b:good", "b:short"], reports=REPORTS_SPAN, slots=["s1"], ign=[True]),
     "inter": dict(template="T_inter", base=["b:good", "b:other"], reports=["r:wyear:orig", "r:wweek:orig"], slots=["s1", "s2"], ign=[False]),
     "obs": dict(template="T_obs", base=["b:good"], reports=REPORTS_OBS, slots=["s1"], ign=[False]),
@@ -124,7 +126,7 @@ def _aggs_of(scen, fam):
 
 
 def enum_key(scen, fam, prof):
-    """Instances of the bounded model that differ only in the family / profile NAME enumerate the same histories: the model
+    r"""Instances of the bounded model that differ only in the family / profile NAME enumerate the same histories: the model
     depends on the family through `Fam \in GatedFams`, the aggregation set and the seed set only."""
     return (scen, fam in ("daily", "billing", "hourly"), tuple(_aggs_of(scen, fam)), scen == "warm" and fam == "hourly")
 
@@ -173,9 +175,23 @@ def features(h):
     f = set()
     fitted = {}
     lastp = None
+    docs = []           # baseline behind every stored document
+    loads = []          # (slot, baseline of the document) in load order
     for a in h:
         op = a["op"]
         f.add(("op", op))
+        if op == "save":
+            docs.append(fitted.get(a["s"], "-"))
+        elif op == "restart":
+            loads = []
+        elif op == "load" and 1 <= a.get("docix", 0) <= len(docs):
+            loads.append((a["s"], docs[a["docix"] - 1]))
+            f.add(("loaded-together", len({d for _, d in loads})))
+        elif op in ("sweep", "predict") and loads:
+            # a restored model is used after ANOTHER stored model was restored in the same process
+            mine = [k for k, (sl, _) in enumerate(loads) if sl == a["s"]]
+            if mine and any(k > mine[-1] and d != loads[mine[-1]][1] for k, (_, d) in enumerate(loads)):
+                f.add(("used-after-another-model-was-restored", op))
         if op == "fit":
             fitted[a["s"]] = a["d"]
             f.add(("fit", a["d"], a["ign"]))
